@@ -9,62 +9,84 @@ From GrolProofs Require Import Cmp_proofs Maps_proofs SaveLoad_proofs SaveLoad_l
 Import ListNotations.
 Local Open Scope Z_scope.
 
-(* the domain of the proved round trip *)
-Definition rt_dom (v : value) : bool := in_domain v && no_finite_float v.
-
-Lemma rt_dom_arr l : rt_dom (VArr l) = true -> Forall (fun x => rt_dom x = true) l.
+(* ---- what in_domain says, per constructor *)
+Lemma in_dom_arr l : in_domain (VArr l) = true -> Forall (fun x => in_domain x = true) l.
 Proof.
-  unfold rt_dom. cbn [in_domain no_finite_float]. intro H. apply andb_true_iff in H. destruct H as [H1 H2].
-  induction l as [|x r IH]; [constructor|]. cbn [forallb] in *.
-  apply andb_true_iff in H1. apply andb_true_iff in H2. destruct H1 as [A1 A2]. destruct H2 as [B1 B2].
-  constructor; [rewrite A1, B1; reflexivity|apply IH; assumption].
+  cbn [in_domain]. intro H. induction l as [|x r IH]; [constructor|]. cbn [forallb] in H.
+  apply andb_true_iff in H. destruct H as [A1 A2]. constructor; [exact A1|exact (IH A2)].
 Qed.
 
-(* what rt_dom says about a map: per pair, and the key order *)
-Lemma rt_dom_map l : rt_dom (VMap l) = true ->
+Lemma in_dom_map l : in_domain (VMap l) = true ->
   keys_sorted l = true /\
-  Forall (fun p => rt_dom (fst p) = true /\ rt_dom (snd p) = true /\ equals (fst p) (fst p) = Val true) l.
+  Forall (fun p => in_domain (fst p) = true /\ in_domain (snd p) = true /\ equals (fst p) (fst p) = Val true) l.
 Proof.
-  unfold rt_dom. cbn [in_domain no_finite_float]. intro H. apply andb_true_iff in H. destruct H as [H1 H2].
-  apply andb_true_iff in H1. destruct H1 as [HS H1]. split; [exact HS|]. clear HS.
+  cbn [in_domain]. intro H. apply andb_true_iff in H. destruct H as [HS H1]. split; [exact HS|]. clear HS.
   induction l as [|[k x] r IH]; [constructor|].
   apply andb_true_iff in H1. destruct H1 as [A123 A4]. apply andb_true_iff in A123. destruct A123 as [A12 A3].
   apply andb_true_iff in A12. destruct A12 as [A1 A2].
-  apply andb_true_iff in H2. destruct H2 as [B12 B3]. apply andb_true_iff in B12. destruct B12 as [B1 B2].
-  constructor; [|apply IH; assumption]. cbn [fst snd]. rewrite A1, B1, A3, B2.
-  repeat split. destruct (equals k k) as [[|]|]; try discriminate. reflexivity.
+  constructor; [|exact (IH A4)]. cbn [fst snd]. repeat split; auto.
+  destruct (equals k k) as [[|]|]; try discriminate. reflexivity.
 Qed.
 
-Lemma rt_dom_lex : forall v, rt_dom v = true -> lex_dom v = true.
+Lemma float_dom_parts f : float_in_domain f = true -> fl_wf f = true /\ text_plain f = true.
+Proof.
+  unfold float_in_domain. intro H. apply andb_true_iff in H. destruct H as [H _].
+  apply andb_true_iff in H. exact H.
+Qed.
+
+Lemma in_dom_lex : forall v, in_domain v = true -> lex_dom v = true.
 Proof.
   induction v using value_ind2; intro D; cbn [lex_dom]; try reflexivity.
-  - unfold rt_dom in D. cbn [in_domain no_finite_float] in D. destruct f; try reflexivity.
-    rewrite andb_false_r in D. discriminate.
-  - unfold rt_dom in D. cbn [in_domain] in D. apply andb_true_iff in D. destruct D as [D _].
-    apply andb_true_iff in D. destruct D as [_ D]. exact D.
-  - unfold rt_dom in D. cbn [in_domain] in D. discriminate.
-  - pose proof (rt_dom_arr l D) as F. clear D. induction H as [|x r Hx Hr IH]; [reflexivity|].
+  - cbn [in_domain] in D. destruct (float_dom_parts f D) as [_ T]. destruct f; try reflexivity. exact T.
+  - cbn [in_domain] in D. apply andb_true_iff in D. destruct D as [_ D]. exact D.
+  - discriminate.
+  - pose proof (in_dom_arr l D) as F. clear D. induction H as [|x r Hx Hr IH]; [reflexivity|].
     inversion F; subst. cbn [forallb]. rewrite Hx by assumption. apply IH. assumption.
-  - destruct (rt_dom_map l D) as [_ F]. clear D. induction H as [|[k x] r Hx Hr IH]; [reflexivity|].
+  - destruct (in_dom_map l D) as [_ F]. clear D. induction H as [|[k x] r Hx Hr IH]; [reflexivity|].
     inversion F as [|? ? [F1 [F2 _]] Fr]; subst. cbn [fst snd] in *. destruct Hx as [Hk Hv].
     rewrite (Hk F1), (Hv F2). cbn [andb]. apply IH. exact Fr.
 Qed.
 
-Lemma rt_dom_par : forall v, rt_dom v = true -> par_dom v = true.
+(* the number conversion does its job on every finite float of v (decidable for a given conversion) *)
+Fixpoint floats_conv (conv : numconv) (v : value) {struct v} : bool :=
+  match v with
+  | VFloat (FFin _ m e) => float_conv_ok conv m e
+  | VArr l => forallb (floats_conv conv) l
+  | VMap l =>
+    (fix go (ps : list (value * value)) : bool :=
+       match ps with [] => true | (k, x) :: r => floats_conv conv k && floats_conv conv x && go r end) l
+  | _ => true
+  end.
+
+Lemma in_dom_pdom conv : forall v, in_domain v = true -> floats_conv conv v = true -> pdom conv v = true.
 Proof.
-  induction v using value_ind2; intro D; cbn [par_dom]; try reflexivity.
-  - unfold rt_dom in D. cbn [in_domain no_finite_float] in D. rewrite andb_true_r in D.
-    apply andb_true_iff in D. destruct D as [D1 D2]. unfold in_int64 in D1. apply andb_true_iff in D1. destruct D1 as [A Bd].
+  induction v using value_ind2; intros D C; cbn [pdom]; try reflexivity.
+  - cbn [in_domain] in D. apply andb_true_iff in D. destruct D as [D1 D2]. unfold in_int64 in D1.
+    apply andb_true_iff in D1. destruct D1 as [A Bd].
     apply negb_true_iff in D2. apply Z.eqb_neq in D2. apply Z.leb_le in A. apply Z.leb_le in Bd.
     apply andb_true_iff. split; [apply Z.ltb_lt; lia|apply Z.leb_le; exact Bd].
-  - unfold rt_dom in D. cbn [in_domain no_finite_float] in D. destruct f; try reflexivity.
-    rewrite andb_false_r in D. discriminate.
-  - unfold rt_dom in D. cbn [in_domain] in D. discriminate.
-  - pose proof (rt_dom_arr l D) as F. clear D. induction H as [|x r Hx Hr IH]; [reflexivity|].
-    inversion F; subst. cbn [forallb]. rewrite Hx by assumption. apply IH. assumption.
-  - destruct (rt_dom_map l D) as [_ F]. clear D. induction H as [|[k x] r Hx Hr IH]; [reflexivity|].
+  - cbn [in_domain] in D. destruct (float_dom_parts f D) as [_ T]. destruct f; try reflexivity.
+    cbn [text_plain] in T. cbn [floats_conv] in C. rewrite T, C. reflexivity.
+  - discriminate.
+  - pose proof (in_dom_arr l D) as F. clear D. cbn [floats_conv] in C. induction H as [|x r Hx Hr IH]; [reflexivity|].
+    inversion F; subst. cbn [forallb] in *. apply andb_true_iff in C. destruct C as [C1 C2].
+    rewrite Hx by assumption. apply IH; assumption.
+  - destruct (in_dom_map l D) as [_ F]. clear D. cbn [floats_conv] in C. induction H as [|[k x] r Hx Hr IH]; [reflexivity|].
     inversion F as [|? ? [F1 [F2 _]] Fr]; subst. cbn [fst snd] in *. destruct Hx as [Hk Hv].
-    rewrite (Hk F1), (Hv F2). cbn [andb]. apply IH. exact Fr.
+    apply andb_true_iff in C. destruct C as [C12 C3]. apply andb_true_iff in C12. destruct C12 as [C1 C2].
+    rewrite (Hk F1 C1), (Hv F2 C2). cbn [andb]. apply IH; assumption.
+Qed.
+
+(* nothing to ask of the conversion when there is no finite float *)
+Lemma no_finite_float_conv conv : forall v, no_finite_float v = true -> floats_conv conv v = true.
+Proof.
+  induction v using value_ind2; intro D; cbn [floats_conv]; try reflexivity.
+  - destruct f; try reflexivity. discriminate.
+  - cbn [no_finite_float] in D. induction H as [|x r Hx Hr IH]; [reflexivity|]. cbn [forallb] in *.
+    apply andb_true_iff in D. destruct D as [D1 D2]. rewrite (Hx D1). exact (IH D2).
+  - cbn [no_finite_float] in D. induction H as [|[k x] r Hx Hr IH]; [reflexivity|].
+    apply andb_true_iff in D. destruct D as [D12 D3]. apply andb_true_iff in D12. destruct D12 as [D1 D2].
+    cbn [fst snd] in Hx. destruct Hx as [Hk Hv]. rewrite (Hk D1), (Hv D2). exact (IH D3).
 Qed.
 
 (* ================================================================ eval_lit inverts lit_tree *)
@@ -124,26 +146,42 @@ Qed.
 Lemma all_some_map_some {A} (l : list A) : all_some (map (@Some A) l) = Some l.
 Proof. induction l as [|x r IH]; [reflexivity|]. cbn [map all_some]. rewrite IH. reflexivity. Qed.
 
-Theorem eval_lit_tree : forall v, rt_dom v = true -> eval_lit (lit_tree v) = Some v.
+Lemma fl_eqb_eq a b : fl_eqb a b = true -> a = b.
+Proof.
+  destruct a as [|x|x m e], b as [|y|y n f]; cbn [fl_eqb]; try discriminate; intro H.
+  - reflexivity.
+  - apply Bool.eqb_prop in H. subst. reflexivity.
+  - apply andb_true_iff in H. destruct H as [H12 H3]. apply andb_true_iff in H12. destruct H12 as [H1 H2].
+    apply Bool.eqb_prop in H1. apply N.eqb_eq in H2. apply Z.eqb_eq in H3. subst. reflexivity.
+Qed.
+
+Theorem eval_lit_tree : forall v, in_domain v = true -> eval_lit (lit_tree v) = Some v.
 Proof.
   induction v using value_ind2; intro D.
   - (* integers *)
-    pose proof (rt_dom_par _ D) as P. cbn [par_dom] in P. apply andb_true_iff in P. destruct P as [P1 P2].
-    apply Z.ltb_lt in P1. destruct z as [|q|q]; cbn [lit_tree eval_lit]; reflexivity.
-  - unfold rt_dom in D. cbn [in_domain no_finite_float] in D.
-    destruct f as [|[|]|]; try reflexivity. rewrite andb_false_r in D. discriminate.
+    cbn [in_domain] in D. apply andb_true_iff in D. destruct D as [_ D2].
+    apply negb_true_iff in D2. apply Z.eqb_neq in D2.
+    destruct z as [|q|q]; cbn [lit_tree eval_lit]; reflexivity.
+  - (* floats *)
+    cbn [in_domain] in D. destruct (float_dom_parts f D) as [W _].
+    destruct f as [|[|]|neg m e]; try reflexivity.
+    unfold fl_wf in W. apply andb_true_iff in W. destruct W as [_ W]. cbn [fl_abs] in W.
+    unfold fl_canonical in W. apply fl_eqb_eq in W.
+    destruct neg; cbn [lit_tree eval_lit].
+    + change (Z.eqb (ttype (tok_of t_minus)) token_MINUS) with true. cbv iota. cbn [eval_lit]. rewrite W. reflexivity.
+    + rewrite W. reflexivity.
   - destruct b; reflexivity.
   - reflexivity.
   - reflexivity.
-  - unfold rt_dom in D. cbn [in_domain] in D. discriminate.
+  - discriminate.
   - (* arrays *)
-    pose proof (rt_dom_arr l D) as F. cbn [lit_tree eval_lit]. rewrite map_map.
+    pose proof (in_dom_arr l D) as F. cbn [lit_tree eval_lit]. rewrite map_map.
     assert (E : map (fun x => eval_lit (lit_tree x)) l = map (@Some value) l).
     { clear D. induction H as [|x r Hx Hr IH]; [reflexivity|]. inversion F; subst. cbn [map].
       rewrite Hx by assumption. f_equal. apply IH. assumption. }
     rewrite E, all_some_map_some. reflexivity.
   - (* maps *)
-    destruct (rt_dom_map l D) as [HS F]. rewrite lit_tree_map_unfold. cbn [eval_lit]. rewrite map_map.
+    destruct (in_dom_map l D) as [HS F]. rewrite lit_tree_map_unfold. cbn [eval_lit]. rewrite map_map.
     assert (E : map (fun kv => (match fst (pair_tree kv) with Some k => eval_lit k | None => None end,
                                 match snd (pair_tree kv) with Some v => eval_lit v | None => None end)) l
                 = map (fun p => (Some (fst p), Some (snd p))) l).
@@ -176,7 +214,7 @@ Lemma need_le_toks : forall v, par_dom v = true -> (need v <= 4 * List.length (v
 Proof.
   induction v using value_ind2; intro D; cbn [par_dom] in D; try discriminate.
   - destruct z; cbn; lia.
-  - destruct f as [|[|]|]; try discriminate; cbn; lia.
+  - destruct f as [|[|]|[|] m e]; cbn [need vtoks app List.length]; lia.
   - destruct b; cbn; lia.
   - cbn; lia.
   - cbn; lia.
@@ -252,7 +290,7 @@ Definition line_tree (k : bytes) (v : value) : node :=
 
 (* the parser on the tokens of a saved line *)
 Lemma parse_line k v f :
-  par_dom v = true -> (need v + 8 <= f)%nat ->
+  pdom conv v = true -> (need v + 8 <= f)%nat ->
   parse_program conv f token_EOF (ptk token_IDENT k :: t_assign :: vtoks v ++ [eof_ptok]) =
   POk (mkPres (Some (line_tree k v) :: nil) nil false true).
 Proof.
@@ -293,18 +331,20 @@ Proof.
   reflexivity.
 Qed.
 
-(* ---- the theorem, for any number conversion that inverts FormatInt *)
+(* ---- the theorem, for any number conversion that inverts FormatInt and does its job on the floats of v *)
 Theorem value_roundtrip_conv k v :
-  good_name k = true -> rt_dom v = true -> read_back conv (save_line k v) = Some (k, v).
+  good_name k = true -> in_domain v = true -> floats_conv conv v = true ->
+  read_back conv (save_line k v) = Some (k, v).
 Proof.
-  intros Hk Hv. unfold read_back, read_back_full, front_parse.
-  rewrite (lex_line k v Hk (rt_dom_lex v Hv)).
+  intros Hk Hv Hc. unfold read_back, read_back_full, front_parse.
+  pose proof (in_dom_pdom conv v Hv Hc) as HP.
+  rewrite (lex_line k v Hk (in_dom_lex v Hv)).
   change (end_type false) with token_EOF.
-  rewrite parse_line; [|exact (rt_dom_par v Hv)|].
+  rewrite parse_line; [|exact HP|].
   - unfold unterminated. cbn [clean pr_errs pr_cont pr_all_lexed negb andb orb pr_tree line_tree].
     change (Z.eqb (ttype (tok_of t_assign)) token_ASSIGN) with true. cbv iota.
     rewrite (eval_lit_tree v Hv). reflexivity.
-  - pose proof (need_le_toks v (rt_dom_par v Hv)). unfold default_fuel. cbn [List.length]. rewrite app_length. cbn [List.length]. lia.
+  - pose proof (need_le_toks v (pdom_par conv v HP)). unfold default_fuel. cbn [List.length]. rewrite app_length. cbn [List.length]. lia.
 Qed.
 End Line.
 
@@ -315,15 +355,25 @@ Proof.
   apply Z.leb_le in H. rewrite H. reflexivity.
 Qed.
 
-Theorem value_roundtrip k v :
-  good_name k = true -> rt_dom v = true -> read_back dec_conv (save_line k v) = Some (k, v).
+(* with the model's own conversion: the guard [floats_conv dec_conv v] is a computation *)
+Theorem value_roundtrip_dec k v :
+  good_name k = true -> in_domain v = true -> floats_conv dec_conv v = true ->
+  read_back dec_conv (save_line k v) = Some (k, v).
 Proof. apply value_roundtrip_conv. exact conv_int_dec. Qed.
 
+(* without finite floats nothing is asked of the conversion *)
+Theorem value_roundtrip k v :
+  good_name k = true -> in_domain v = true -> no_finite_float v = true ->
+  read_back dec_conv (save_line k v) = Some (k, v).
+Proof. intros Hk Hv Hf. apply value_roundtrip_dec; [exact Hk|exact Hv|]. apply no_finite_float_conv. exact Hf. Qed.
+
 (* two values of the domain with the same printed form are the same value *)
-Corollary inspect_injective v w : rt_dom v = true -> rt_dom w = true -> inspect v = inspect w -> v = w.
+Corollary inspect_injective v w :
+  in_domain v = true -> floats_conv dec_conv v = true -> in_domain w = true -> floats_conv dec_conv w = true ->
+  inspect v = inspect w -> v = w.
 Proof.
-  intros Hv Hw E.
-  pose proof (value_roundtrip [120%N] v eq_refl Hv) as A.
-  pose proof (value_roundtrip [120%N] w eq_refl Hw) as Bd.
+  intros Hv Cv Hw Cw E.
+  pose proof (value_roundtrip_dec [120%N] v eq_refl Hv Cv) as A.
+  pose proof (value_roundtrip_dec [120%N] w eq_refl Hw Cw) as Bd.
   unfold save_line in *. rewrite E in A. rewrite A in Bd. congruence.
 Qed.
